@@ -381,6 +381,16 @@ def run(pid, tier, repo="/repo", out_evidence=True, quiet=False):
         "wall_s": round(wall, 2),
         "violations": len(violations),
     }
+    if tier == "thorough" and not os.environ.get("GOVC_IN_SELFTEST"):
+        # the thorough tier also re-runs the engine's must-fail corpus (recorded, not part of the verdict on /repo)
+        try:
+            import subprocess as _sp
+            r_ = _sp.run([os.path.join(ROOT, "tools", "selftest_engine.sh")], capture_output=True, text=True, timeout=900,
+                         env=dict(os.environ, GOVC_IN_SELFTEST="1"))
+            last = [l for l in (r_.stdout or "").splitlines() if l.startswith("selftest-engine:")]
+            ev["coverage"]["engine_selftest"] = (last[-1] if last else "no result") + (" [exit %d]" % r_.returncode)
+        except Exception as ex_:
+            ev["coverage"]["engine_selftest"] = "not run: %s" % ex_
     if level != "proof":
         ev["coverage"]["evaluations"] = max(1, counted)
         ev["coverage"]["distinct_nontrivial"] = max(2, discharged)
